@@ -137,14 +137,10 @@ func runCase(id int, d Defaults, c *Case) {
 		bText, bTextErr, _ = runBinary(plainBin, dir, nil, append([]string{"-format", "text"}, args...)...)
 		bCSV, bCSVErr, _ = runBinary(plainBin, dir, nil, append([]string{"-format", "csv"}, args...)...)
 	}
-	hasFormat := false
-	for _, a := range c.Flags {
-		hasFormat = hasFormat || a == "-format"
-	}
 
 	if run.Err != "" {
 		// error path: the binary must report the same error text and print nothing
-		if plainBin != "" && !hasFormat {
+		if plainBin != "" {
 			want := "benchstat: " + run.Err + "\n"
 			if strings.HasPrefix(run.Err, "flag: ") {
 				binState = "flagerr"
